@@ -11,6 +11,7 @@ an instrumented iterator whose every `next` is a user callback (event `pull`); w
 -/
 import Micromap.Proofs.FromIter
 import Micromap.Model.Step
+import Micromap.Proofs.ListSysRefine
 
 namespace Micromap.Props.C16
 open Micromap SetAlg EqClone FromIter
@@ -312,6 +313,81 @@ theorem set_fits_of_distinct_le_cap (hE : E.Lawful) (cap : Nat) (ks : List K) (d
   fits_of_distinct_le_cap E.toUnit (toUnit_lawful hE) cap _ d
     (fun x hx => hd x (by simpa [List.map_map] using hx)) hdc
 
+/-! ### `a.extend(b)` with the set `b` moved in (`SetOp.extend_from`)
+
+`Extend<T> for Set<T, N>` fed with another set: `b.into_iter()` is the consuming iterator
+`SetIntoIter` (it pops from the END of `b`), every key it yields goes through `a.insert`.  The
+model operation is `Op.set i (.extend_from j)` (`stepCore` → `extendFrom` → `extendFromLoop`,
+`Model/Sys.lean`); its list-level meaning in the interpreter `ListSys.lstepCore` is the fold of
+single inserts of `b`'s keys, last first, and `b = []` afterwards (`ListSys.extendFrom_ok`, part of
+`ListSys.step_refines` / `run_refines`). -/
+
+section extendFrom
+open ListSys
+variable (R : Render K V)
+
+/-- **`a.extend(b)`, `b` a set moved in, for a lawful key type in a benign world — the set-level
+    statement.**  `a = sets i` holds `la`, `b = sets j` holds `lb` (`j ≠ i`), both with pairwise
+    unequal keys (what the invariant guarantees for a lawful key type, see
+    `set_extend_from_gains_inv`), and there is room in `a` for the elements of `b` that `a` does not
+    hold.  Then the step returns `()`; afterwards `a` holds its old entries — same slots, same key
+    objects — followed by EXACTLY the elements of `b` it did not hold (`ListSys.gained`: in the
+    order the consuming iterator yields them, last slot of `b` first); `b` is empty (consumed:
+    every element was moved into `a` or, being a duplicate, dropped); capacities are unchanged and
+    the world is again benign. -/
+theorem set_extend_from_gains (hE : E.Lawful) {sys : Sys K V Q} {ls : LSys K V} (hb : Benign sys.w)
+    (hs : SysRep sys ls) (i j : Nat) (hij : j ≠ i)
+    (hnd : NodupKeys E.toUnit.keq (ls.sets i).l) (hns : NodupKeys E.toUnit.keq (ls.sets j).l)
+    (hroom : (ls.sets i).l.length + (gained E.toUnit (ls.sets i).l (ls.sets j).l).length ≤ (ls.sets i).cap) :
+    (step E R sys (.set i (.extend_from j))).2.outcome = .ok ∧
+    (step E R sys (.set i (.extend_from j))).2.ret = .unit ∧
+    SysRep (step E R sys (.set i (.extend_from j))).1
+      ((ls.setSet j ⟨(ls.sets j).cap, []⟩).setSet i
+        ⟨(ls.sets i).cap, (ls.sets i).l ++ gained E.toUnit (ls.sets i).l (ls.sets j).l⟩) ∧
+    Benign (step E R sys (.set i (.extend_from j))).1.w := by
+  have hF : E.toUnit.Lawful := toUnit_lawful hE
+  have hov := overflowAt_none_of_gain E.toUnit hF (ls.sets i).cap (ls.sets i).l (ls.sets j).l hnd hroom
+  have hfold := foldInsert_gain E.toUnit hF (ls.sets i).l (ls.sets j).l hns
+  have hl : lstepCore E R ls (.set i (.extend_from j)) = .ok .unit
+      ((ls.setSet j ⟨(ls.sets j).cap, []⟩).setSet i
+        ⟨(ls.sets i).cap, (ls.sets i).l ++ gained E.toUnit (ls.sets i).l (ls.sets j).l⟩) := by
+    simp only [lstepCore]
+    rw [if_neg hij, if_pos hov, hfold]
+  obtain ⟨h1, h2, h3⟩ := step_refines E R hE.toPure hb hs (.set i (.extend_from j)) rfl trivial
+  simp only [lstep, hl] at h1 h2
+  exact ⟨congrArg LOut.outcome h1, congrArg LOut.ret h1, h2, h3⟩
+
+/-- … with the hypotheses on the keys discharged by the invariant: from registers that satisfy
+    `SysInv` (every reachable state does: `run_inv`), for lawful `Eq`/`Borrow` and a `Clone` that
+    respects them (`Env.Good`). -/
+theorem set_extend_from_gains_inv (hG : E.Good) {sys : Sys K V Q} {ls : LSys K V} (hb : Benign sys.w)
+    (hinv : SysInv E sys) (hs : SysRep sys ls) (i j : Nat) (hij : j ≠ i)
+    (hroom : (ls.sets i).l.length + (gained E.toUnit (ls.sets i).l (ls.sets j).l).length ≤ (ls.sets i).cap) :
+    (step E R sys (.set i (.extend_from j))).2.outcome = .ok ∧
+    (step E R sys (.set i (.extend_from j))).2.ret = .unit ∧
+    SysRep (step E R sys (.set i (.extend_from j))).1
+      ((ls.setSet j ⟨(ls.sets j).cap, []⟩).setSet i
+        ⟨(ls.sets i).cap, (ls.sets i).l ++ gained E.toUnit (ls.sets i).l (ls.sets j).l⟩) ∧
+    Benign (step E R sys (.set i (.extend_from j))).1.w := by
+  have hnod : ∀ r, NodupKeys E.toUnit.keq (ls.sets r).l := by
+    intro r
+    obtain ⟨l, hr, hn⟩ := hinv.2 r
+    have : l = (ls.sets r).l := Rep.unique hr (hs.2.1 r).1
+    exact this ▸ hn (Env.Good.toUnit hG)
+  exact set_extend_from_gains E R hG.1 hb hs i j hij (hnod i) (hnod j) hroom
+
+/-- the general case (any contents, a pure `==`): the step is what the list-level interpreter says
+    — the fold of single inserts of `b`'s keys, last first; on overflow the panic class of the
+    profile, with what went in before the first surplus key kept; `b` empty in either case. -/
+theorem set_extend_from_refines (hE : E.Pure) {sys : Sys K V Q} {ls : LSys K V} (hb : Benign sys.w)
+    (hs : SysRep sys ls) (i j : Nat) :
+    view (step E R sys (.set i (.extend_from j))).2 = (lstep E R ls (.set i (.extend_from j))).2 ∧
+    SysRep (step E R sys (.set i (.extend_from j))).1 (lstep E R ls (.set i (.extend_from j))).1 ∧
+    Benign (step E R sys (.set i (.extend_from j))).1.w :=
+  step_refines E R hE hb hs (.set i (.extend_from j)) rfl trivial
+
+end extendFrom
+
 /-! Non-vacuity: concrete data meeting the hypotheses (tests, not proofs). -/
 
 def exEnv : Env Nat Nat Nat :=
@@ -329,5 +405,13 @@ example : foldInsert exEnv [] [(7, 100), (8, 1), (17, 200), (8, 2), (27, 300)] =
 example : overflowAt exEnv 2 [] [(7, 100), (8, 1), (17, 200), (9, 2), (27, 300)] = some 3 := by decide
 example : ∀ x, x ∈ [(7, 100), (8, 1), (17, 200)].map (·.1) → memB exEnv.keq x [7, 8] = true := by
   decide
+
+/-- `a = {7}`, `b = {8, 17, 9}` (slot order), `17 ≡ 7`: `a` gains `9` and `8` — `b`'s elements it did
+    not hold, last first —, the duplicate `17` is dropped; `a`'s key object `7` stays. -/
+example : ListSys.gained exEnv.toUnit [(7, ())] [(8, ()), (17, ()), (9, ())] = [(9, ()), (8, ())] := by
+  decide
+example : foldInsert exEnv.toUnit [(7, ())] [(8, ()), (17, ()), (9, ())].reverse =
+    [(7, ())] ++ ListSys.gained exEnv.toUnit [(7, ())] [(8, ()), (17, ()), (9, ())] := by decide
+example : (Op.set 0 (.extend_from 1) : Op Nat Nat Nat).inSpec = true := rfl
 
 end Micromap.Props.C16
